@@ -9,6 +9,8 @@ CONSTANTS
  FixAllParts = TRUE
  FixHashAfterStore = TRUE
  DevIgnoreCompleteErr = FALSE
+ DevNegAck = FALSE
+ DevEmptyAck = FALSE
 INIT TInit
 NEXT TNext
 POSTCONDITION Reached
